@@ -214,11 +214,12 @@ Fixpoint count_bytes (n : node) (v : val) {struct n} : Z :=
   end.
 
 (* ---------- the methods ---------- *)
-(* the source switch of Copy and CopyTo: T, *T, **T are dereferenced unguarded *)
+(* the source switch of Copy and CopyTo: a nil *T, a **T to a nil *T and a nil **T are refused
+   like the default case (fix: commit e113795; they were dereferenced unguarded) *)
 Definition src_value (a : arg) : val + option err + pkind :=
   match a with
   | AVal v | APtr (Some v) | APtrPtr (Some (Some v)) => inl (inl v)
-  | APtr None | APtrPtr (Some None) | APtrPtr None => inr PNilDeref
+  | APtr None | APtrPtr (Some None) | APtrPtr None => inl (inr (Some EUnsupported))
   | ANil | AForeign => inl (inr (Some EUnsupported))
   end.
 
@@ -232,7 +233,7 @@ Definition copyto_method (n : node) (src dst : arg) : out (option val) :=
     | AVal v => Ret (Some v) (Some EMustPointer)
     | ANil | AForeign => Ret None (Some EUnsupported)
     | APtr (Some l) | APtrPtr (Some (Some l)) => Ret (Some (cpy n l r)) None
-    | APtr None | APtrPtr (Some None) | APtrPtr None => Panic PNilDeref
+    | APtr None | APtrPtr (Some None) | APtrPtr None => Ret None (Some EUnsupported)   (* if l == nil *)
     end
   end.
 
